@@ -12,13 +12,17 @@
          protected data inside critical sections and private steps has exactly the final data and
          results of the execution in which every critical section runs atomically, in program order
          (Reduce.v, for any number of threads, any data and any micro-operations);
+     (5) (4) instantiated with the atomic channel (AtomicReduce.v): threads that each run
+         lock ; one Atomic.astep label ; unlock, interleaved lock event by lock event, end in the
+         configuration and with the per-thread outputs of Atomic.arun on the labels in unlock order;
    and what a critical section does to the logical state is Atomic.astep (H1 correspondence).
    The composition is validated on every run by H2: the results of every scheduled execution of
    the real crate are searched for in the set of operation-level interleavings of Atomic.astep. *)
 From KV Require Import Mem Mutex Sig.
 From KV.gen Require Import Gen_Sites Gen_Skel.
 From KV Require Import Reduce.
-From KV.proofs Require Import LockProfile MutexProof SigProof ReduceProof.
+From KV Require Import Base Chan Atomic.
+From KV.proofs Require Import LockProfile MutexProof SigProof ReduceProof AtomicReduce.
 From Coq Require Import List NArith.
 Import ListNotations.
 
@@ -47,6 +51,16 @@ Theorem c03_partial_serialisation_keeps_program_order :
   forall t, cproj L O t (ser L O o_s o_u minit [] tr) = proj L O t tr.
 Proof. exact serialisation_keeps_program_order. Qed.
 
+
+(* the statement of C03 at the granularity of critical sections, for the atomic channel itself *)
+Theorem c03_partial_lock_level_executions_are_atomic_runs : forall o_s o_u a0 tr s',
+  (forall t e, In (t, e) tr -> forall g, e <> FLocal _ _ g) ->
+  frun aconf (list out) label aexec o_s o_u (finit _ _ a0 (fun _ => [])) tr = Some s' ->
+  lock_free (f_m _ _ s') ->
+  let order := tagged (ser (list out) label o_s o_u minit [] tr) in
+  f_sh _ _ s' = fst (arun a0 (map snd order)) /\
+  forall t, f_loc _ _ s' t = outs_of t a0 order.
+Proof. exact lock_level_executions_are_atomic_runs. Qed.
 Print Assumptions c03_partial_one_critical_section_per_entry_point.
 Print Assumptions c03_partial_critical_sections_exclude_each_other.
 Print Assumptions c03_partial_outside_the_lock_only_the_claimed_signal.
@@ -71,3 +85,15 @@ Example c03_reduce_witness :
   /\ (let c := crun (list N) N qop qexec (cinit (list N) N [] (fun _ => 0%N)) (ser N qop Acquire Release minit [] tr) in
       (c_sh _ _ c, c_loc _ _ c 1, c_loc _ _ c 2)%N) = ([8], 0, 7)%N.
 Proof. vm_compute. repeat split. Qed.
+Print Assumptions c03_partial_lock_level_executions_are_atomic_runs.
+
+(* two threads on a rendezvous channel: thread 2 fails an attempt while thread 1 is inside; the results are those
+   of the atomic run try_send ; try_recv *)
+Example c03_lock_level_witness :
+  let tr := [(1, FLock (list out) label (MLockCas true)); (2, FLock _ _ (MLockCas false)); (1, FOp _ _ (LTrySend 0 5));
+             (1, FLock _ _ MUnlock); (2, FLock _ _ MPause); (2, FLock _ _ (MLockCas true)); (2, FOp _ _ (LTryRecv 1));
+             (2, FLock _ _ MUnlock)]%N in
+  option_map (fun s => (map r_res (f_loc _ _ s 1), map r_res (f_loc _ _ s 2))%N)
+    (frun aconf (list out) label aexec Acquire Release (finit _ _ (init true 1) (fun _ => [])) tr)
+  = Some ([ROkB true], [ROkSome 5])%N.
+Proof. vm_compute. reflexivity. Qed.
